@@ -1,9 +1,21 @@
 from core import Unit as U
 MULINV = ["secp256k1_scalar_mul", "secp256k1_scalar_inverse"]
 GEN = ["secp256k1_ecmult_gen", "secp256k1_ge_set_gej"]
+SIGN_INNER_REPL = ["secp256k1_ecdsa_sig_sign", "nonce_function_rfc6979_impl", "secp256k1_ec_commit_seckey"] + GEN
 UNITS = [
     U("C01.sig_sign", ["C01"], "harness/C01/sig_sign.c", "h_sig_sign", replace=MULINV + GEN, assumed=MULINV + GEN,
       functions=["secp256k1_ecdsa_sig_sign", "secp256k1_fe_normalize", "secp256k1_fe_get_b32", "secp256k1_scalar_set_b32",
                  "secp256k1_scalar_add", "secp256k1_scalar_is_high", "secp256k1_scalar_cond_negate", "secp256k1_fe_is_odd", "secp256k1_scalar_is_zero"],
       timeout=600, min_obl=100, replay=False),
+    U("C01.verify_api", ["C01"], "harness/C01/verify_api.c", "h_verify_api", replace=["secp256k1_ecdsa_sig_verify"],
+      functions=["secp256k1_ecdsa_verify", "secp256k1_ecdsa_signature_load", "secp256k1_pubkey_load", "secp256k1_scalar_set_b32", "secp256k1_scalar_is_high", "secp256k1_ge_from_bytes"],
+      timeout=600, min_obl=50, replay=False, note="secp256k1_ecdsa_sig_verify replaced by its verdict-oracle contract; its gates are proved by C01.sig_verify"),
+    U("C01.normalize", ["C01"], "harness/C01/normalize.c", "h_normalize",
+      functions=["secp256k1_ecdsa_signature_normalize", "secp256k1_ecdsa_signature_load", "secp256k1_ecdsa_signature_save", "secp256k1_scalar_is_high", "secp256k1_scalar_negate"],
+      timeout=600, min_obl=50, replay=False),
+    U("C01.sign_inner", ["C01"], "harness/C01/sign_inner.c", "h_sign_inner", replace=SIGN_INNER_REPL, assumed=GEN,
+      loops=True, closed_by="loop contract on the nonce retry loop (hooks/C01_sign_inner_loop.diff); partial correctness",
+      functions=["secp256k1_ecdsa_sign_inner", "secp256k1_scalar_set_b32_seckey", "secp256k1_scalar_set_b32", "secp256k1_scalar_cmov", "secp256k1_int_cmov", "nonce_function_rfc6979"],
+      timeout=900, min_obl=100, replay=False,
+      note="sig_sign and nonce_function_rfc6979_impl replaced by contracts proved in C01.sig_sign / C01.rfc6979; user nonce callback = stub writing only nonce32 and returning any int"),
 ]
